@@ -458,8 +458,8 @@ Proof.
   rewrite H, N.eqb_refl in HL. cbn [orb] in HL. now destruct (is_sig t).
 Qed.
 
-Lemma doxa_scan_spec : forall b cs newb cs' nb,
-  doxa_scan cs newb b = (cs', nb) ->
+Lemma doxa_scan_spec : forall b depth ended cs newb cs' nb,
+  doxa_scan depth ended cs newb b = (cs', nb) ->
   exists taken dropped,
     cs' = (rev taken ++ cs)%list /\
     Permutation (rev newb ++ b) (nb ++ taken ++ dropped) /\
@@ -467,17 +467,30 @@ Lemma doxa_scan_spec : forall b cs newb cs' nb,
     Forall (fun t => tty t = T_NEWLINE) dropped /\
     sigs nb = sigs (rev newb ++ b).
 Proof.
-  induction b as [|t r IH]; intros cs newb cs' nb H; cbn [doxa_scan] in H.
+  induction b as [|t r IH]; intros depth ended cs newb cs' nb H; cbn [doxa_scan] in H.
   - inversion H; subst. exists [], []. rewrite !app_nil_r. repeat split; auto.
-  - destruct (N.eqb_spec (tty t) T_NEWLINE) as [E|E].
+  - assert (Hstop : forall cs1, (cs1, (rev (t :: newb) ++ r)%list) = (cs', nb) ->
+              exists taken dropped, cs' = (rev taken ++ cs1)%list /\
+                Permutation (rev newb ++ t :: r) (nb ++ taken ++ dropped) /\
+                Forall (fun t => is_comment t = true) taken /\
+                Forall (fun t => tty t = T_NEWLINE) dropped /\ sigs nb = sigs (rev newb ++ t :: r)).
+    { intros cs1 Hx. inversion Hx; subst. exists [], []. cbn [rev app]. rewrite !app_nil_r.
+      rewrite <- app_assoc. cbn [app]. repeat split; auto. }
+    assert (Hgo : forall d e, doxa_scan d e cs (t :: newb) r = (cs', nb) ->
+              exists taken dropped, cs' = (rev taken ++ cs)%list /\
+                Permutation (rev newb ++ t :: r) (nb ++ taken ++ dropped) /\
+                Forall (fun t => is_comment t = true) taken /\
+                Forall (fun t => tty t = T_NEWLINE) dropped /\ sigs nb = sigs (rev newb ++ t :: r)).
+    { intros d e Hx. apply IH in Hx as (taken & dropped & H1 & H2 & H3 & H4 & H5).
+      exists taken, dropped. cbn [rev] in H2, H5. rewrite <- app_assoc in H2, H5. cbn [app] in H2, H5.
+      repeat split; auto. }
+    destruct (N.eqb_spec (tty t) T_NEWLINE) as [E|E].
     + inversion H; subst. exists [], [t]. cbn [rev app]. repeat split; auto.
       * rewrite <- app_assoc. apply Permutation_app_head. cbn [app].
         change (t :: r) with ([t] ++ r)%list. apply Permutation_app_comm.
       * unfold sigs. rewrite !filter_app. cbn [filter]. now rewrite (nl_not_sig t E).
     + destruct (N.eqb_spec (tty t) T_WHITESPACE) as [E2|E2].
-      * apply IH in H as (taken & dropped & H1 & H2 & H3 & H4 & H5).
-        exists taken, dropped. cbn [rev] in H2, H5. rewrite <- app_assoc in H2, H5. cbn [app] in H2, H5.
-        repeat split; auto.
+      * exact (Hgo _ _ H).
       * destruct (is_comment t) eqn:Ec; [destruct (is_doc t) eqn:Ed|].
         -- apply IH in H as (taken & dropped & H1 & H2 & H3 & H4 & H5).
            exists (t :: taken), dropped. cbn [rev]. rewrite <- app_assoc. cbn [app].
@@ -486,25 +499,87 @@ Proof.
               etransitivity; [apply perm_skip; exact H2|]. cbn [app]. apply Permutation_middle.
            ++ rewrite H5. unfold sigs. rewrite !filter_app. cbn [filter]. now rewrite (comment_not_sig t Ec).
         -- (* plain comment *)
-           assert (Hstop : forall cs1, (cs1, (rev (t :: newb) ++ r)%list) = (cs', nb) ->
-                     exists taken dropped, cs' = (rev taken ++ cs1)%list /\
-                       Permutation (rev newb ++ t :: r) (nb ++ taken ++ dropped) /\
-                       Forall (fun t => is_comment t = true) taken /\
-                       Forall (fun t => tty t = T_NEWLINE) dropped /\ sigs nb = sigs (rev newb ++ t :: r)).
-           { intros cs1 Hx. inversion Hx; subst. exists [], []. cbn [rev app]. rewrite !app_nil_r.
-             rewrite <- app_assoc. cbn [app]. repeat split; auto. }
            destruct cs as [|c0 cs0].
-           ++ destruct (ends_nl (ttext t)); [exact (Hstop [] H)|].
-              apply IH in H as (taken & dropped & H1 & H2 & H3 & H4 & H5).
-              exists taken, dropped. cbn [rev] in H2, H5. rewrite <- app_assoc in H2, H5. cbn [app] in H2, H5.
-              repeat split; auto.
+           ++ destruct (ends_nl (ttext t)); [exact (Hstop [] H)|]. exact (Hgo _ _ H).
            ++ exact (Hstop (c0 :: cs0) H).
         -- destruct cs as [|c0 cs0].
-           ++ apply IH in H as (taken & dropped & H1 & H2 & H3 & H4 & H5).
-              exists taken, dropped. cbn [rev] in H2, H5. rewrite <- app_assoc in H2, H5. cbn [app] in H2, H5.
-              repeat split; auto.
-           ++ inversion H; subst. exists [], []. cbn [rev app]. rewrite !app_nil_r.
-              rewrite <- app_assoc. cbn [app]. repeat split; auto.
+           ++ destruct (ended || ((tty t =? T_LIT_125) && (depth =? 0)%nat)); [exact (Hstop [] H)|].
+              destruct (tty t =? T_LIT_123); [exact (Hgo _ _ H)|].
+              destruct (tty t =? T_LIT_125); [exact (Hgo _ _ H)|].
+              destruct ((tty t =? T_LIT_59) && (depth =? 0)%nat); exact (Hgo _ _ H).
+           ++ exact (Hstop (c0 :: cs0) H).
+Qed.
+
+(* a documentation comment behind the '}' that ends the enclosing block, or
+   behind a later statement on the same line, is left where it is *)
+Definition plain_sig (t : tok) : bool :=
+  negb (tty t =? T_NEWLINE) && negb (tty t =? T_WHITESPACE) && negb (is_comment t).
+
+Lemma doxa_scan_stops_at_block_end : forall pre depth ended newb t post,
+  Forall (fun x => tty x = T_WHITESPACE) pre ->
+  plain_sig t = true ->
+  (ended = true \/ (tty t = T_LIT_125 /\ depth = O)) ->
+  doxa_scan depth ended [] newb (pre ++ t :: post) = ([], rev newb ++ pre ++ t :: post).
+Proof.
+  induction pre as [|w pre IH]; intros depth ended newb t post Hpre Ht Hstop.
+  - cbn [app doxa_scan]. unfold plain_sig in Ht.
+    apply andb_prop in Ht as [Ht Hc]. apply andb_prop in Ht as [Hn Hw].
+    apply negb_true_iff in Hn, Hw, Hc. rewrite Hn, Hw, Hc.
+    replace (ended || ((tty t =? T_LIT_125) && (depth =? 0)%nat)) with true.
+    + cbn [rev]. now rewrite <- app_assoc.
+    + destruct Hstop as [->|[E ->]]; [reflexivity|]. rewrite E. cbn. now rewrite orb_true_r.
+  - inversion Hpre as [|? ? Hw Hpre']; subst. cbn [app doxa_scan].
+    replace (tty w =? T_NEWLINE) with false by (rewrite Hw; reflexivity).
+    replace (tty w =? T_WHITESPACE) with true by (rewrite Hw; reflexivity).
+    rewrite (IH depth ended (w :: newb) t post Hpre' Ht Hstop). cbn [rev]. now rewrite <- app_assoc.
+Qed.
+
+Lemma doxa_scan_ws : forall pre depth ended newb rest,
+  Forall (fun x => tty x = T_WHITESPACE) pre ->
+  doxa_scan depth ended [] newb (pre ++ rest) = doxa_scan depth ended [] (rev pre ++ newb) rest.
+Proof.
+  induction pre as [|w pre IH]; intros depth ended newb rest Hpre; [reflexivity|].
+  inversion Hpre as [|? ? Hw Hpre']; subst. cbn [app doxa_scan].
+  replace (tty w =? T_NEWLINE) with false by (rewrite Hw; reflexivity).
+  replace (tty w =? T_WHITESPACE) with true by (rewrite Hw; reflexivity).
+  rewrite IH by assumption. cbn [rev]. now rewrite <- app_assoc.
+Qed.
+
+Lemma ts_eta st : mkTs (buf st) (raw st) (rfail st) = st.
+Proof. now destruct st. Qed.
+
+Theorem doc_not_carried_across_block_end_lemma st pre t post :
+  buf st = (pre ++ t :: post)%list ->
+  Forall (fun x => tty x = T_WHITESPACE) pre ->
+  tty t = T_LIT_125 ->
+  get_doxygen_after st = (None, st).
+Proof.
+  intros Hb Hpre Ht. unfold get_doxygen_after. rewrite Hb.
+  destruct (pre ++ t :: post)%list as [|x xs] eqn:E; [destruct pre; discriminate|]. rewrite <- E.
+  rewrite (doxa_scan_stops_at_block_end pre 0 false [] t post Hpre).
+  - cbn [rev app]. rewrite E, <- Hb. now rewrite ts_eta.
+  - unfold plain_sig, is_comment. rewrite Ht. reflexivity.
+  - right. split; [exact Ht|reflexivity].
+Qed.
+
+Theorem doc_not_carried_past_next_statement_lemma st pre semi mid t post :
+  buf st = (pre ++ semi :: mid ++ t :: post)%list ->
+  Forall (fun x => tty x = T_WHITESPACE) pre ->
+  Forall (fun x => tty x = T_WHITESPACE) mid ->
+  tty semi = T_LIT_59 ->
+  plain_sig t = true ->
+  get_doxygen_after st = (None, st).
+Proof.
+  intros Hb Hpre Hmid Hs Ht. unfold get_doxygen_after. rewrite Hb.
+  destruct (pre ++ semi :: mid ++ t :: post)%list as [|x xs] eqn:E; [destruct pre; discriminate|]. rewrite <- E.
+  rewrite (doxa_scan_ws pre 0 false [] _ Hpre).
+  cbn [doxa_scan]. unfold is_comment. rewrite Hs.
+  change (T_LIT_59 =? T_NEWLINE) with false. change (T_LIT_59 =? T_WHITESPACE) with false.
+  change (T_LIT_59 =? T_COMMENT_SINGLELINE) with false. change (T_LIT_59 =? T_COMMENT_MULTILINE) with false.
+  cbn [orb andb]. change (T_LIT_59 =? T_LIT_125) with false. change (T_LIT_59 =? T_LIT_123) with false.
+  change (T_LIT_59 =? T_LIT_59) with true. cbn [orb andb Nat.eqb].
+  rewrite (doxa_scan_stops_at_block_end mid 0 true _ t post Hmid Ht (or_introl eq_refl)).
+  cbn [rev]. rewrite app_nil_r, rev_involutive, <- app_assoc. cbn [app]. rewrite E, <- Hb. now rewrite ts_eta.
 Qed.
 
 (* get_doxygen_after only moves comment tokens of the current line out of the
@@ -521,7 +596,7 @@ Theorem get_doxygen_after_spec_lemma st o st' :
 Proof.
   unfold get_doxygen_after. destruct (buf st) as [|b0 b] eqn:Eb.
   - intros H; inversion H; subst. repeat split; auto. exists [], []. rewrite Eb. cbn. repeat split; auto.
-  - destruct (doxa_scan [] [] (b0 :: b)) as [cs nb] eqn:E.
+  - destruct (doxa_scan 0 false [] [] (b0 :: b)) as [cs nb] eqn:E.
     intros H; inversion H; subst. cbn [raw buf].
     apply doxa_scan_spec in E as (taken & dropped & H1 & H2 & H3 & H4 & H5).
     cbn [rev app] in H2, H5. rewrite app_nil_r in H1. subst cs.
